@@ -900,6 +900,10 @@ fn gen_c03(r: &mut Rng, t: Tier, job: u64) -> Plan {
         // command-ready afterwards (sentinel PING)
         return super::props3::gen_c04_plan(r, t, job);
     }
+    if job == if t == Tier::Quick { 10 } else { 250 } {
+        // ... and one whose giant record is refused while the shim carries on
+        return super::props3::gen_c04_refused_giant(r);
+    }
     let mut o = ConvOpts::std();
     o.sentinel_pings = true;
     o.w = [30, 8, 8, 4, 6, 4, 12, 18, 5, 5];
